@@ -18,6 +18,9 @@ POOL_THOROUGH = POOL_QUICK + [("rsa2048", 2), ("rsa3072", 1), ("rsa4096", 1), ("
 UNSUPPORTED = [("rsa1024", 0), ("p224", 0)]
 
 XKIDS = ["k1", "k2", "sig-2024", "heimdall", "a/b c"]
+# further ids of a key that is listed more than once in a store (the name a key had before a renaming and the new
+# one; bundles concatenated from several sources)
+ALIAS_XKIDS = ["signer-2023", "signer-2024", "signer-2025", "old", "current"]
 SKIS = ["ab01", "ab02", "00ff10", "c0ffee"]
 SUBJECTS = ["alice", "bob", "svc:robot-7", "user@example.com", "", "0", "Bob"]
 ISSUERS = ["", "issuer-a", "https://heimdall.example.com", "heimdall"]
@@ -48,8 +51,17 @@ class Ids:
         return self.cid
 
 
-def gen_store(rng, keys, ids, password="", allow_bad=True, min_entries=1):
-    """keys: the case's key table [(type, n)]; returns a store specification {"blocks": [...]} or {"raw": ...}"""
+SHARED_P = 0.14   # share of the generated stores that list one of their keys more than once
+
+
+def gen_store(rng, keys, ids, password="", allow_bad=True, min_entries=1, want_kid=""):
+    """keys: the case's key table [(type, n)]; returns a store specification {"blocks": [...]} or {"raw": ...}.
+
+    Shared keys: in about one store out of seven one key is listed again (once or twice, anywhere in the file) under
+    further `X-Key-ID`s — every listing is an entry of its own with its own id, all of them share the key material and
+    the certificate chain found for it.  `want_kid`: the key id the finalizer that is going to load the store is
+    configured with; one of the further listings gets it, so that the store loads with the active key reached through
+    an id that is not the first one of its key."""
     r = rng.random()
     if allow_bad and r < 0.03:
         return {"raw": rng.choice(["empty", "garbage", "unsupported"])}
@@ -58,15 +70,31 @@ def gen_store(rng, keys, ids, password="", allow_bad=True, min_entries=1):
     pids = rng.sample(range(len(keys)), min(n, len(keys)))
     if allow_bad and rng.random() < 0.03 and pids:
         pids.append(pids[0])  # the same key twice
+    entries = [(pid, None) for pid in pids]
+    if pids and rng.random() < SHARED_P:
+        again = rng.choice(pids)
+        names = rng.sample(ALIAS_XKIDS, rng.choice([1, 1, 2]))
+        if want_kid:
+            names[-1] = want_kid
+        for name in names:
+            # mostly after the first listing (the id in use is then not the first one of its key), anywhere else too
+            at = entries.index((again, None))
+            pos = rng.randrange(at + 1, len(entries) + 1) if rng.random() < 0.75 else rng.randrange(len(entries) + 1)
+            entries.insert(pos, (again, name))
     blocks = []
     tail = []
     used_ca = {}
-    for pid in pids:
+    for pid, alias in entries:
         t = keys[pid][0]
         fmts = ["pkcs8", "pkcs8", "pkcs1" if is_rsa(t) else "sec1"]
         if password:
             fmts.append("enc")
         kb = {"t": "key", "k": pid, "fmt": rng.choice(fmts), "xkid": ""}
+        if alias is not None:
+            # a further listing of a key of this store: its own id, no certificate of its own
+            kb["xkid"] = alias
+            blocks.append(kb)
+            continue
         x = rng.random()
         if x < 0.35:
             kb["xkid"] = rng.choice(XKIDS)
@@ -143,6 +171,15 @@ def kids_of(store):
     raw = raw_of(store) or []
     return [e["xkid"] or (e["chain"][0]["ski"] if e["chain"] and e["chain"][0]["ski"] else "auto:%d" % e["k"])
             for e in raw]
+
+
+def shared_ids(store):
+    """the explicit ids of the keys that the store lists more than once, in file order ([] for most stores)"""
+    keys = [b for b in store.get("blocks", []) if b["t"] == "key"]
+    count = {}
+    for b in keys:
+        count[b["k"]] = count.get(b["k"], 0) + 1
+    return [b["xkid"] for b in keys if count[b["k"]] > 1 and b.get("xkid")]
 
 
 def kid_candidates(store):
@@ -267,7 +304,11 @@ def gen_holder(rng, idx, keys, ids, templates, allow_bad=True):
     key_id = ""
     r = rng.random()
     cands = kid_candidates(store)
-    if r < 0.3 and cands:
+    shared = shared_ids(store)
+    if shared and rng.random() < 0.75:
+        # a key listed under several ids: the finalizer is configured with one of them, mostly a later one
+        key_id = rng.choice(shared[1:] + shared)
+    elif r < 0.3 and cands:
         key_id = rng.choice(cands)
     elif r < 0.34 and allow_bad:
         key_id = "missing"
@@ -383,7 +424,7 @@ def gen_signer_case(rng, pool, cache=None):
                 # the key store of the executing finalizer is reloaded while Execute runs (after the cache key has
                 # been calculated, before the signer is asked); often followed by a reload that brings the key back
                 h = ops[-1]["h"]
-                store = gen_store(rng, keys, ids, holders[h]["password"], allow_bad)
+                store = gen_store(rng, keys, ids, holders[h]["password"], allow_bad, want_kid=holders[h]["key_id"])
                 ops[-1]["inside"] = {"store": store, "raw": raw_of(store)}
                 if rng.random() < 0.6:
                     back = [holders[h]["store"]] + [o["store"] for o in ops[:-1] if o["op"] == "reload" and o["h"] == h]
@@ -400,7 +441,7 @@ def gen_signer_case(rng, pool, cache=None):
                 earlier = [holders[h]["store"]] + [o["store"] for o in ops if o["op"] == "reload" and o["h"] == h]
                 store = copy.deepcopy(rng.choice(earlier))
             else:
-                store = gen_store(rng, keys, ids, holders[h]["password"], allow_bad)
+                store = gen_store(rng, keys, ids, holders[h]["password"], allow_bad, want_kid=holders[h]["key_id"])
             ops.append({"op": "reload", "h": h, "store": store, "raw": raw_of(store)})
     if not any(o["op"] == "jwks" for o in ops):
         ops.append({"op": "jwks"})
@@ -695,4 +736,30 @@ def grid_cases():
         cases.append({"fam": "signer", "keys": [{"t": "p256", "n": 0}], "holders": [h],
                       "ops": [{"op": "sign", "h": 0, "sub": "subject-%d" % mask, "attrs": {}, "outputs": {}, "ov": None,
                                "renders": {"0": members}}]})
+    return cases + shared_key_grid()
+
+
+def shared_key_grid():
+    """deterministic sweep: key stores that list one key under several ids (adjacent listings, another key in between,
+    the first listing without X-Key-ID so that its id is computed / taken from the certificate), the finalizer
+    configured with each of the ids in turn and with none; one token and one read of the key set each"""
+    layouts = [
+        [(0, "signer-2023"), (0, "signer-2024")],
+        [(0, "signer-2023"), (1, "other"), (0, "signer-2024")],
+        [(1, "other"), (0, ""), (0, "signer-2024"), (0, "signer-2025")],
+    ]
+    cases = []
+    for t in ["p256", "rsa2048"]:
+        for li, layout in enumerate(layouts):
+            for with_cert in ([False, True] if li == 2 else [False]):
+                blocks = [{"t": "key", "k": k, "fmt": "pkcs8", "xkid": x} for k, x in layout]
+                if with_cert:
+                    blocks.append({"t": "cert", "k": 0, "cid": 1, "ski": "ab07", "usage": "sig"})
+                store = {"blocks": blocks}
+                for key_id in [""] + [x for _, x in layout if x] + (["ab07"] if with_cert else []):
+                    h = {"id": "jwt0", "key_id": key_id, "name": "shared", "password": "", "ttl_ns": None, "tpl": None,
+                         "claims_tpl": None, "header": None, "store": store, "raw": raw_of(store)}
+                    cases.append({"fam": "signer", "keys": [{"t": t, "n": 0}, {"t": "p384", "n": 0}], "holders": [h],
+                                  "ops": [{"op": "sign", "h": 0, "sub": "alice", "attrs": {}, "outputs": {}, "ov": None,
+                                           "renders": {}}, {"op": "jwks"}]})
     return cases
